@@ -18,6 +18,16 @@ use std::sync::Arc;
 // ------------------------------------------------------------------ (i) import graphs
 
 const NODES: [&str; 4] = ["conftest.py", "m1.py", "m2.py", "pkg/m3.py"];
+/// the same graph with helper modules named like standard-library modules (relative spelling only:
+/// `from .http import *` can only mean the local module)
+const NODES_STDLIB_LIKE: [&str; 4] = ["conftest.py", "http.py", "types.py", "pkg/email.py"];
+fn nodes(stdlib_like: bool) -> [&'static str; 4] {
+    if stdlib_like {
+        NODES_STDLIB_LIKE
+    } else {
+        NODES
+    }
+}
 const FX: [&str; 4] = ["c0", "f1", "f2", "f3"];
 
 #[derive(Clone, Copy, Debug, Serialize, PartialEq)]
@@ -36,10 +46,12 @@ pub struct ImportGraph {
     /// (source node, target helper 1..=3, kind)
     pub edges: Vec<(usize, usize, Kind)>,
     pub relative: bool,
+    #[serde(default)]
+    pub stdlib_like_names: bool,
 }
 
-fn module_name(src: usize, dst: usize, relative: bool) -> String {
-    let abs = ["", "m1", "m2", "pkg.m3"][dst];
+fn module_name(src: usize, dst: usize, relative: bool, stdlib_like: bool) -> String {
+    let abs = if stdlib_like { ["", "http", "types", "pkg.email"][dst] } else { ["", "m1", "m2", "pkg.m3"][dst] };
     if !relative {
         return abs.to_string();
     }
@@ -47,7 +59,7 @@ fn module_name(src: usize, dst: usize, relative: bool) -> String {
     if src == 3 {
         // inside pkg/
         match dst {
-            3 => ".m3".to_string(),
+            3 => if stdlib_like { ".email".to_string() } else { ".m3".to_string() },
             _ => format!("..{}", abs),
         }
     } else {
@@ -57,7 +69,7 @@ fn module_name(src: usize, dst: usize, relative: bool) -> String {
 
 impl ImportGraph {
     pub fn to_ws(&self) -> Ws {
-        let mut files: Vec<FileSpec> = NODES.iter().enumerate().map(|(i, n)| FileSpec::new(n, vec![Item::fixture(FX[i], &[])])).collect();
+        let mut files: Vec<FileSpec> = nodes(self.stdlib_like_names).iter().enumerate().map(|(i, n)| FileSpec::new(n, vec![Item::fixture(FX[i], &[])])).collect();
         for src in 0..4 {
             // plugin declarations of one module are merged into one assignment (several edges)
             let mut plugins: Vec<String> = Vec::new();
@@ -66,7 +78,7 @@ impl ImportGraph {
                 if *s != src {
                     continue;
                 }
-                let m = module_name(*s, *d, self.relative && !matches!(k, Kind::Plugins | Kind::PluginsOverwritten));
+                let m = module_name(*s, *d, self.relative && !matches!(k, Kind::Plugins | Kind::PluginsOverwritten), self.stdlib_like_names);
                 match k {
                     Kind::Star => files[src].items.insert(0, Item::StarImport { module: m }),
                     Kind::Explicit => files[src].items.insert(0, Item::ExplicitImport { module: m, names: vec![FX[*d].to_string()] }),
@@ -98,7 +110,10 @@ fn enumerate_graphs(max_edges: usize) -> Vec<ImportGraph> {
     let mut out = Vec::new();
     fn rec(slots: &[(usize, usize)], kinds: &[Kind], start: usize, cur: &mut Vec<(usize, usize, Kind)>, max: usize, out: &mut Vec<ImportGraph>) {
         for relative in [false, true] {
-            out.push(ImportGraph { edges: cur.clone(), relative });
+            out.push(ImportGraph { edges: cur.clone(), relative, stdlib_like_names: false });
+        }
+        if !cur.is_empty() && cur.iter().all(|e| !matches!(e.2, Kind::Plugins | Kind::PluginsOverwritten)) {
+            out.push(ImportGraph { edges: cur.clone(), relative: true, stdlib_like_names: true });
         }
         if cur.len() == max {
             return;
@@ -129,7 +144,7 @@ fn check_graph(rep: &Report, g: &ImportGraph, scans: &AtomicU64) {
     let tpath = ws.path_in(&root, test);
     let case = || json!({"graph": g, "files": ws.files.iter().enumerate().map(|(i, f)| json!({"path": f.rel, "text": r.texts[i]})).collect::<Vec<_>>()});
     let kinds: BTreeSet<String> = g.edges.iter().map(|e| format!("{:?}", e.2)).collect();
-    let ctx = format!("edge kinds {:?}, {} spelling", kinds, if g.relative { "relative" } else { "absolute" });
+    let ctx = format!("edge kinds {:?}, {} spelling{}", kinds, if g.relative { "relative" } else { "absolute" }, if g.stdlib_like_names { ", modules named like standard-library modules" } else { "" });
     // resolver walk: go-to-definition of each name from the test file
     let mut visible_model: BTreeSet<String> = BTreeSet::new();
     for u in r.usages.iter().filter(|u| u.file == test) {
@@ -177,18 +192,18 @@ fn check_graph(rep: &Report, g: &ImportGraph, scans: &AtomicU64) {
         }
     }
     for n in 1..4 {
-        let analysed = db.file_definitions.contains_key(&sc.path().join(NODES[n]));
+        let analysed = db.file_definitions.contains_key(&sc.path().join(nodes(g.stdlib_like_names)[n]));
         if reach.contains(&n) != analysed {
             let fp = format!("imports: module {} by the scan [{}]", if analysed { "analysed although nothing imports it" } else { "reachable through imports but not analysed" }, ctx);
             if !rep.count_if_seen(&fp) {
-                rep.violation(&fp, &format!("{}: reachable {}, analysed {}; graph {:?}", NODES[n], reach.contains(&n), analysed, g), case);
+                rep.violation(&fp, &format!("{}: reachable {}, analysed {}; graph {:?}", nodes(g.stdlib_like_names)[n], reach.contains(&n), analysed, g), case);
             }
         }
     }
     // defining module
     for e in db.definitions.iter() {
         for d in e.value() {
-            let want_file = FX.iter().position(|f| *f == d.name).map(|i| NODES[i]).unwrap_or(if d.name == "decoy_fx" { "decoy_mod.py" } else { "?" });
+            let want_file = FX.iter().position(|f| *f == d.name).map(|i| nodes(g.stdlib_like_names)[i]).unwrap_or(if d.name == "decoy_fx" { "decoy_mod.py" } else { "?" });
             if rel(&d.file_path, &root) != want_file {
                 rep.violation("imports: fixture attributed to a module that does not define it", &format!("{} recorded in {}", d.name, rel(&d.file_path, &root)), case);
             }
@@ -433,6 +448,6 @@ pub fn run(rep: &'static Report) {
     rep.set("distinct_nontrivial", (graphs.iter().filter(|g| !g.edges.is_empty()).count() + venvs.len()) as u64);
     rep.set("traces_validated_against_impl", s);
     rep.set("exhaustive", true);
-    rep.set("rule", "(i) every import graph with at most 3 (quick) / 4 (thorough) edges among the 12 possible (source ∈ {conftest.py, m1.py, m2.py, pkg/m3.py}) → (target ∈ {m1, m2, pkg.m3}) pairs, each edge a star import, an explicit import of the target's fixture, an explicit import of every fixture name (so that re-exported and unavailable names are requested too), a pytest_plugins entry or a pytest_plugins entry preceded by an overwritten assignment, in absolute and relative spelling (levels 1 and 2), including self-loops, cycles and diamonds — materialised on tmpfs and scanned for real; the reference model (PytestLookup with transitive star/pytest_plugins export and per-name explicit export) gives for every name used by test_x.py the defining module or 'not reachable'; compared with go-to-definition (resolver walk), the available-fixtures view (completion walk), the set of modules the scan analysed (scanner walk) and the defining module recorded; (ii) the product of virtualenv layouts: entry-point target {module, package, submodule, mod:attr} × install {regular, editable inside the workspace, editable outside, workspace is the editable root} × {dist-info, egg-info} × raw/normalised distribution directory name × 4 .pth namings × pytest built-ins present/absent × plugin module {plain, star-imports a helper, declares pytest_plugins, explicit import} × chain length 1..3 to the helper's module × {a project conftest also star-imports that module, not}; expected: every plugin fixture found, third-party iff its source lives in site-packages or in an editable root outside the workspace, plugin iff reached from an entry point (propagated by star/pytest_plugins), visible from a project test, and no third-party fixture among workspace symbols");
+    rep.set("rule", "(i) every import graph with at most 3 (quick) / 4 (thorough) edges among the 12 possible (source ∈ {conftest.py, m1.py, m2.py, pkg/m3.py}) → (target ∈ {m1, m2, pkg.m3}) pairs, each edge a star import, an explicit import of the target's fixture, an explicit import of every fixture name (so that re-exported and unavailable names are requested too), a pytest_plugins entry or a pytest_plugins entry preceded by an overwritten assignment, in absolute and relative spelling (levels 1 and 2; relative graphs without pytest_plugins edges once more with helper modules named like standard-library modules: http, types, email), including self-loops, cycles and diamonds — materialised on tmpfs and scanned for real; the reference model (PytestLookup with transitive star/pytest_plugins export and per-name explicit export) gives for every name used by test_x.py the defining module or 'not reachable'; compared with go-to-definition (resolver walk), the available-fixtures view (completion walk), the set of modules the scan analysed (scanner walk) and the defining module recorded; (ii) the product of virtualenv layouts: entry-point target {module, package, submodule, mod:attr} × install {regular, editable inside the workspace, editable outside, workspace is the editable root} × {dist-info, egg-info} × raw/normalised distribution directory name × 4 .pth namings × pytest built-ins present/absent × plugin module {plain, star-imports a helper, declares pytest_plugins, explicit import} × chain length 1..3 to the helper's module × {a project conftest also star-imports that module, not}; expected: every plugin fixture found, third-party iff its source lives in site-packages or in an editable root outside the workspace, plugin iff reached from an entry point (propagated by star/pytest_plugins), visible from a project test, and no third-party fixture among workspace symbols");
     rep.assume("aliased explicit imports are outside the grammar (documented as unsupported)");
 }
